@@ -98,14 +98,14 @@ def Stops (rest : List Tok) : Prop :=
   rest = [] ∨ ∃ t r, rest = t :: r ∧ Closes .Standard t
 
 /-- **roundtrip_expr_partial.** For every tree over literals, identifiers, all 10 unary and all 30 binary operators,
-the conditional, member access and array subscript, nested to any depth: the tokens of the printed text, followed by anything that ends an
+the conditional, member access, array subscript and calls (without template arguments), nested to any depth: the tokens of the printed text, followed by anything that ends an
 expression, are read by the parser model at the top level (`expr_p15`, terminator `Standard`) as exactly the tree.
 
 Partial, because `WF` excludes exactly: (1) literals that do not print as one token reading back as themselves
 (negative values, `-0.0`, NaN, integral `Float16`/`Float64`, … — `LitOk`), (2) an assignment as the *middle* operand of
-a conditional — where the full statement is false, `ternary_middle_assignment_breaks` — and (3) call nodes, which the
-models cover (correspondence-tested) but this induction does not yet; casts, `sizeof`, template arguments and braced
-initialisers are not in the model at all. -/
+a conditional — where the full statement is false, `ternary_middle_assignment_breaks`. Casts, `sizeof`, template
+arguments and braced initialisers are not in the model at all (so neither is `expr_p1_call`'s attempt to read
+`<…>(` as template arguments, which breaks `a < b > (c)` on the real code — a known finding). -/
 theorem roundtrip_expr_partial (e : Expr) (hwf : WF e) (rest : List Tok) (hrest : Stops rest) :
     ReadsBack e rest := by
   have hno : NoLow 15 .Standard rest := by
@@ -129,16 +129,19 @@ theorem roundtrip_subexpr_partial (e : Expr) (hwf : WF e) (outer : Nat) (side : 
   obtain ⟨N, h⟩ := rts_self (rt e hwf) outer side k term rest hterm hk hpos hno hin
   exact ⟨N, h N (Nat.le_refl _)⟩
 
-/-- non-vacuity: a depth-5 tree mixing eight levels, both associativities, prefix/postfix signs and a conditional -/
+/-- non-vacuity: a depth-6 tree (identifier leaves: `LitOk` of a concrete literal is decided by the compiled model —
+literal names are strings, which the kernel does not evaluate — so literal leaves enter the theorem as a hypothesis) mixing eight levels, both associativities, prefix/postfix signs, conditionals, member, subscript and call -/
 def sample : Expr :=
   .bin .Assignment (.id "r")
     (.tern (.bin .LessThan (.bin .Add (.id "a") (.bin .Multiply (.id "b") (.un .Minus (.un .Minus (.id "c"))))) (.id "d"))
       (.bin .Subtract (.id "x") (.bin .Subtract (.sub (.mem (.id "y") "m") (.bin .Sequence (.id "i") (.id "j")))
         (.un .PostfixDecrement (.id "z"))))
-      (.bin .Sequence (.bin .BitwiseOrAssignment (.id "p") (.id "q")) (.un .LogicalNot (.id "w"))))
+      (.bin .Sequence (.bin .BitwiseOrAssignment (.id "p") (.id "q"))
+        (.un .LogicalNot (.call (.mem (.id "w") "f") (.cons (.tern (.id "u") (.id "v") (.id "w")) (.cons (.id "k") .nil))))))
 
-example : WF sample := by simp [sample, WF, Expr.lvl, binLevel, levelOfPrec, binPrec]
-example : ReadsBack sample [] := roundtrip_expr_partial sample (by simp [sample, WF, Expr.lvl, binLevel, levelOfPrec, binPrec]) [] (Or.inl rfl)
+theorem sample_wf : WF sample := by
+  simp [sample, WF, WFA, Expr.lvl, binLevel, levelOfPrec, binPrec]
+example : ReadsBack sample [] := roundtrip_expr_partial sample sample_wf [] (Or.inl rfl)
 
 /-- the excluded conditional shape -/
 def ternaryMiddleAssignment : Expr :=
